@@ -1,6 +1,7 @@
 import Req.Lemmas.Pct
 import Req.Lemmas.Query
 import Req.Lemmas.H1Fidelity
+import Req.Lemmas.Trim
 import Req.Client.Url
 /-!
 C01 — request fidelity: property theorems about the models of the request-building pipeline.
@@ -390,5 +391,114 @@ theorem body_framing_total (body : Bytes) (reads : List Nat) :
   splitReads_spec reads body
 
 end H1
+
+/-! ### the three protocols agree -/
+
+section Cross
+open Req.H1 Req.H2 Req.H1.Origin Req.Validate Req.HeaderSort Req.Ascii Req.Props.C16
+
+/-- a caller header none of the three writers treats specially: valid field name, not in either
+exclusion table (connection-specific / framing / bookkeeping names), not User-Agent, not Cookie. -/
+def ordinaryKey (k : Bytes) : Bool :=
+  validHeaderFieldName k && !reqWriteExcludeHeader.contains k && !isExcluded k &&
+    !equalFold k sUserAgentL && !equalFold k sCookieL
+
+theorem mem_wireOf {kvs : List KV} {kv : KV} {v : Bytes} (h : kv ∈ kvs) (hv : v ∈ kv.values) :
+    (lower kv.key, v) ∈ wireOf kvs := by
+  unfold wireOf
+  exact List.mem_flatMap.mpr ⟨kv, h, List.mem_map.mpr ⟨v, hv, rfl⟩⟩
+
+/-- **cross_protocol (header values)**: for the same `http.Request`, every value of every ordinary
+caller header that passes `validateHeaders` is on the HTTP/1.1 wire (name in the caller's
+spelling) AND in the HTTP/2 / HTTP/3 field list (name lower-cased, value verbatim), and an origin
+that removes surrounding white space — as HTTP defines field values — reads the SAME value from
+both. -/
+theorem cross_protocol (fl : Flavor) (w : WReq) (q : FReq) (host1 : Bytes) (f : Framing)
+    (fs : List (Bytes × Bytes)) (hq : q.header = w.header) (hfs : fields fl q = .ok fs)
+    (kv : KV) (hkv : kv ∈ w.header) (hk : ordinaryKey kv.key = true)
+    (v : Bytes) (hv : v ∈ kv.values) (hval : validHeaderFieldValue v = true) :
+    (kv.key, sanitizeValue v) ∈ linesOf (h1Fields w host1 f) ∧ (lower kv.key, v) ∈ fs ∧
+      trimOWS (sanitizeValue v) = trimOWS v := by
+  unfold ordinaryKey at hk
+  simp only [Bool.and_eq_true, Bool.not_eq_true'] at hk
+  obtain ⟨⟨⟨⟨hname, hex1⟩, hex2⟩, hua⟩, hck⟩ := hk
+  refine ⟨h1_noncanonical_spelling w host1 f kv hkv hex1 hname v hv, ?_, ?_⟩
+  · obtain ⟨host, path, _, _, hperm⟩ := wire_set_h2 fl q fs hfs
+    apply hperm.mem_iff.mpr
+    apply List.mem_append.mpr
+    right
+    unfold baseRegular
+    have e : ∀ a b : List KV, wireOf (a ++ b) = wireOf a ++ wireOf b := by
+      intro a b; simp [wireOf]
+    rw [e, e, e]
+    simp only [List.mem_append]
+    left; left; left
+    rw [hq]
+    unfold headerGroups wireOf
+    apply List.mem_flatMap.mpr
+    cases fl with
+    | h2 =>
+      refine ⟨kv, ?_, List.mem_map.mpr ⟨v, hv, rfl⟩⟩
+      apply List.mem_flatMap.mpr
+      refine ⟨kv, hkv, ?_⟩
+      simp [hex2, hua, hck]
+    | h3 =>
+      refine ⟨⟨kv.key, [v]⟩, ?_, by simp⟩
+      apply List.mem_flatMap.mpr
+      refine ⟨kv, hkv, ?_⟩
+      simp only [hex2, hua, Bool.false_eq_true, if_false]
+      have : (Flavor.h3 == Flavor.h2) = false := by decide
+      simp only [this, Bool.false_and, Bool.false_eq_true, if_false]
+      simp only [beq_self_eq_true, if_true]
+      exact List.mem_map.mpr ⟨v, hv, rfl⟩
+  · rw [sanitizeValue_of_valid v hval, trimOWS_idem]
+
+/-- non-vacuity: `X-A` is ordinary, `Connection` / `content-length` / `User-Agent` are not; an
+HTTP/2 field list for a request carrying `X-A: " v "` exists. -/
+example : ordinaryKey [88, 45, 65] = true ∧ ordinaryKey sConnection = false ∧
+    ordinaryKey sContentLengthL = false ∧ ordinaryKey sUserAgent = false := by decide
+
+example : (fields .h2 { method := [71, 69, 84], url := { scheme := [104], host := [104], path := [47] },
+    header := [⟨[88, 45, 65], [[32, 118, 32]]⟩] }).toOption.map (·.length) = some 6 := by decide
+
+theorem lower_pseudo : lower sPath = sPath ∧ lower sMethod = sMethod ∧ lower sAuthority = sAuthority := by
+  decide
+
+/-- **cross_protocol (request line)**: for the same `http.Request` (no proxy, not CONNECT, target
+in origin form) the `:method` / `:path` pseudo fields of HTTP/2 and HTTP/3 carry exactly the
+method and the request target of the HTTP/1.1 request line. (HTTP/3 sends the method as given; it
+only differs from the other two for the empty method, which they read as GET.) -/
+theorem cross_protocol_request_line (fl : Flavor) (w : WReq) (q : FReq) (host1 : Bytes)
+    (fs : List (Bytes × Bytes)) (hm : q.method = w.method) (hu : q.url = w.url)
+    (hnc : (w.method == sCONNECT) = false) (hnp : w.usingProxy = false)
+    (hvp : validPseudoPath (requestURI w.url) = true) (hfs : fields fl q = .ok fs) :
+    (sPath, requestTarget w host1) ∈ fs ∧
+      (sMethod, if fl = .h2 then methodOrGet w.method else w.method) ∈ fs := by
+  obtain ⟨host, path, _, hpath, hperm⟩ := wire_set_h2 fl q fs hfs
+  have hp : path = requestURI w.url := by
+    unfold fieldPath at hpath
+    simp only [hm, hnc, Bool.false_eq_true, if_false, hu, hvp, if_true, Except.ok.injEq] at hpath
+    exact hpath.symm
+  have ht : requestTarget w host1 = requestURI w.url := by
+    unfold requestTarget
+    simp [hnp, hnc]
+  obtain ⟨l1, l2, _⟩ := lower_pseudo
+  constructor
+  · apply hperm.mem_iff.mpr
+    apply List.mem_append.mpr
+    left
+    rw [ht, ← hp, ← l1]
+    apply mem_wireOf (kv := ⟨sPath, [path]⟩) _ (by simp)
+    unfold basePseudo
+    simp [hm, hnc]
+  · apply hperm.mem_iff.mpr
+    apply List.mem_append.mpr
+    left
+    rw [← l2]
+    apply mem_wireOf (kv := ⟨sMethod, [if fl = .h2 then methodOrGet w.method else w.method]⟩) _ (by simp)
+    unfold basePseudo
+    cases fl <;> simp [hm]
+
+end Cross
 
 end Req.Props.C01
